@@ -8,6 +8,8 @@
 (*            mapped to a nearest palette colour; if the distinct colours   *)
 (*            fit k and the image is not subsampled it is reproduced        *)
 (*            exactly, with or without dithering.                           *)
+(*  flat:     [t, w, h, k, dither, cols, maps, np]  large flat areas, judged  *)
+(*            on the colour-to-colour mapping instead of pixel by pixel.     *)
 (* Pixels arrive already composited over the background (the composited     *)
 (* colour is computed by the rasterize crate and logged as data).           *)
 EXTENDS Integers, Sequences, FiniteSets, TLC, Json, IOUtils, SequencesExt
@@ -22,6 +24,16 @@ Verdict(r) ==
        (IF \E i \in 1..Len(r.qs) : r.res[i][1] < 0 \/ r.res[i][1] >= Len(r.pal) THEN "lookup returned an index outside the palette"
         ELSE IF \E i \in 1..Len(r.qs) : C3(r.pal[r.res[i][1] + 1]) # <<r.res[i][2], r.res[i][3], r.res[i][4]>> THEN "lookup returned a colour that is not the indexed entry"
         ELSE IF \E i \in 1..Len(r.qs) : D(C3(r.qs[i]), C3(r.pal[r.res[i][1] + 1])) # MinD(C3(r.qs[i]), r.pal) THEN "lookup returned an entry that is not at minimal distance"
+        ELSE "ok")
+  ELSE IF r.t = "flat" THEN
+       \* a large image of a few colours (cols = <<r, g, b, count>>), not subsampled (h * w < 200 * k) and fitting the palette:
+       \* every source colour is mapped to itself and nothing else
+       (IF ~r.some THEN "no result for a non-empty image"
+        ELSE IF r.np < 1 \/ r.np > MaxI(r.k, 8) THEN "palette size outside 1..max(k, 8)"
+        ELSE IF r.iw # r.w \/ r.ih # r.h THEN "index image has a different size"
+        ELSE IF ~r.inside THEN "index outside the palette"
+        ELSE IF r.h * r.w < 200 * r.k /\ Len(r.cols) <= r.k /\ \E i \in 1..Len(r.cols) : r.maps[i] # << <<r.cols[i][1], r.cols[i][2], r.cols[i][3]>> >>
+             THEN "image whose colours fit the palette is not reproduced exactly"
         ELSE "ok")
   ELSE \* quantize
        LET np == Len(r.pal) n == r.w * r.h
